@@ -110,8 +110,12 @@ func runC05(c *Ctx) {
 		if clamped {
 			okClamp = early == "true" && clamp == "true" && d != nil
 		} else {
-			// not clamped: either not early, or early and d <= 16s
-			okClamp = early == "false" || (early == "true" && clamp == "false")
+			// not clamped: not early, or d <= 16s (the two tests in either order: the second one is not
+			// evaluated when the first already fails)
+			okClamp = early == "false" || clamp == "false"
+			if strings.HasPrefix(early, "bad-") || strings.HasPrefix(clamp, "bad-") {
+				okClamp = false
+			}
 			if okClamp && clampCmp != nil && !sameValue(clampCmp, res) {
 				okClamp = false
 			}
